@@ -1296,7 +1296,7 @@ def run(tier, seed):
         names_tie(chk, tier)
 
         # ---- a + b: generated programs ------------------------------------------------------------------------
-        nprog = 36 if tier == "quick" else 420
+        nprog = 36 if tier == "quick" else 240
         batch = 36 if tier == "quick" else 60
         done = 0
         while done < nprog:
